@@ -57,6 +57,16 @@ def gen(chk, tier):
             for (sl, dl) in ((15, 16), (8, 16), (0, 16), (16, 15), (16, 8), (16, 0), (1, 1)):
                 g.one("block_short_guarded", "guard.block", key=key, asm=asm, dec=dec, src=rb(rng, sl), dstlen=dl, place="end")
                 g.one("block_short_heap", "guard.heapblock", key=key, asm=asm, dec=dec, src=rb(rng, sl), dstlen=dl)
+    # the hash and the comparison helper are plain Go today; their buffers are laid against the guard as well (a
+    # zero-copy or word-wise rewrite that reads past the end of the data would otherwise land in allocator slack)
+    for L in ([0, 1, 3, 55, 56, 63, 64, 65, 119, 128, 200] if q else range(0, 260)):
+        for place in ("end", "start") if (not q or L in (1, 64, 65)) else ("end",):
+            g.one("sm3_guarded", "guard.sm3", data=rb(rng, L), splits=rng.choice([[], [1], [L // 2], [3, 64], [63, 1, 1]]),
+                  place=place, inlen=rng.choice([0, 5]))
+    for L in ([1, 7, 8, 9, 16, 31, 32, 33] if q else range(1, 70)):
+        a = rb(rng, L)
+        for b_ in (list(a), a[:-1] + [a[-1] ^ 1], [a[0] ^ 0x80] + a[1:]):
+            g.one("cmp_guarded", "guard.cmp", a=a, b=b_, place=rng.choice(["end", "start"]))
     return g.cmds
 
 
